@@ -68,7 +68,10 @@ def cleanup_conformance(ctx, maxlen):
     res = ctx.tlc("CleanUp", dict(consts, EmitCases=True), invariants=["EmitCase"], workers=1, count=False)
     cases = []
     for i, c in enumerate(res.cases):
-        if ctx.tier != "thorough" and ctx.rng.random() > 0.35:
+        keep = (0.08 if len(c["input"]) >= 5 else 0.35) if ctx.tier != "thorough" else (0.4 if len(c["input"]) >= 5 else 1.0)
+        inp = c["input"]
+        two_word = any(inp[j:j + 3] in (["all", "SP", "in"], ["all", "SP", "of"]) for j in range(len(inp) - 2))
+        if not two_word and ctx.rng.random() > keep:      # (the two-word entries of the cull list: always kept)
             continue
         # the block follows 'Sec 14:' directly; texts that would read as another section / Twp/Rge do not occur
         # (the only words are a foreign word and the culled words)
@@ -86,7 +89,7 @@ def cleanup_conformance(ctx, maxlen):
 
 def run(ctx):
     thorough = ctx.tier == "thorough"
-    cleanup_conformance(ctx, 5 if thorough else 4)
+    cleanup_conformance(ctx, 5)
     # (3 groups x 2 section groups: 262 560 documents; 3 x 3 would be 19 million)
     base = {"MaxGroups": 3 if thorough else 2, "MaxSecs": 2, "TRIds": {1, 2}}
     invs = ["OneTractPerSection", "ReadingOrder", "Bounded", "PrettyRoundTrip", "PrettyHeaders"]
